@@ -439,8 +439,10 @@ def variant_history(r, n):
             ops.append('vchild %d %d' % (i, j))
         elif k < 0.85:
             ops.append('vsub %d %d %d' % (i, j, r.randrange(3)))
-        elif k < 0.91:
+        elif k < 0.89:
             ops.append('vsubmut %d %d %s' % (i, r.randrange(3), H(r.choice(names))))
+        elif k < 0.91:
+            ops.append('vsubsettext %d %d %s' % (i, r.randrange(3), H(r.choice(names))))
         elif k < 0.94:
             ops.append('velcopy %d %d' % (i, j))
         elif k < 0.955:
@@ -518,6 +520,18 @@ class C16(Check):
             chunk = cases[i:i + size]
             wd = self.per_case_timeout if self.timeouts_total < 20 else 1
             r, c = run_exe_on_cases(self.exes['impl'], chunk, rundir, tag, is_impl=True, per_case_timeout=wd, env=env)
+            # a watchdog hit may be the machine, not the library (the slowest healthy case needs 0.4 s; under a load of 16+ a 64 KiB
+            # round trip was seen to pass 2 s once): the first 3 hits of a run are run again alone with a 10 s watchdog and
+            # count only if they hit that too.  A tree that hangs pays 30 s for this, once.
+            if not shrinking:
+                for k in sorted(k for k, v in c.items() if v[0] == 'timeout'):
+                    if self.retried >= 3:
+                        break
+                    self.retried += 1
+                    r1, c1 = run_exe_on_cases(self.exes['impl'], [chunk[k]], rundir, tag + '_retry', is_impl=True, per_case_timeout=10, env=env)
+                    if not c1:
+                        r[k] = r1[0]
+                        del c[k]
             res += r
             for k, v in c.items():
                 crashes[i + k] = v
@@ -533,6 +547,7 @@ class C16(Check):
     RUN_CAP = 150
     crashes_total = 0
     timeouts_total = 0
+    retried = 0
 
     def shrink(self, case, pred, budget=400):
         # every probe of a hanging case costs the watchdog: a small budget on a tree that crashes / hangs a lot
@@ -634,6 +649,15 @@ class C16(Check):
                         break
                 if hit:
                     break
+        # vf makes ONE report per reason shape (first 80 characters, digits apart) from the shortest case of the group, and a case
+        # that matches a listed open finding only prints KNOWN-FINDING.  The witness of the open finding fails in a `vdump` line (or
+        # with a crash) like any other handle defect: with the common prefix it was the shortest case of the group `vdump: the
+        # answer ...` and swallowed every other failing handle history (seeded s3 / t1 came out as no-failing-input-found once the
+        # entry was registered).  A case that matches a listed open finding gets a reason prefix of its own, hence a group of its own.
+        for n, (i, k, reason) in enumerate(fails):
+            kf = self.match_known(cases[i], reason)
+            if kf:
+                fails[n] = (i, k, ('open finding listed in known_findings.json, witness %s: ' % kf.get('witness', '-')).ljust(84) + reason)
         return fails
 
     def nontrivial(self, case, obs):
@@ -655,7 +679,7 @@ class C16(Check):
             return sum(1 for l in case if l.split(' ')[0] in ('open', 'attr', 'text')) >= 3
         if 'vdump' in kinds:
             return (any(l.startswith(('vcopy', 'vassign', 'velcopy', 'vchild', 'vsub ', 'vsubassign')) for l in case)    # vassign also matches vassignsub / vassignsubm
-                    and any(l.startswith(('vname', 'vattr', 'vsubmut', 'vsettext', 'vchild', 'vwriteheld', 'vsubassign')) for l in case))
+                    and any(l.startswith(('vname', 'vattr', 'vsubmut', 'vsettext', 'vsubsettext', 'vchild', 'vwriteheld', 'vsubassign')) for l in case))
         return False
 
     # -- generators ---------------------------------------------------------------------------
@@ -749,7 +773,11 @@ class C16(Check):
                ['vsub 0 0 0'], ['vdel 0'], ['vnull 0'], ['velcopy 0 0'], ['vcopy 0 0'], ['vsubmut 3 0 79'], ['vsub 1 3 0', 'vname 1 77'],
                ['vassignsub 0 0 0'], ['vassignsubm 0 0'], ['vdel 1', 'vassignsub 0 0 0'], ['vdel 1', 'vassignsubm 0 0'], ['vassignsub 1 0 0'], ['vassignsub 0 3 0'],
                ['vassignsub 3 3 0'], ['vsub 1 0 0', 'vassign 1 0'],
-               ['vsubassign 0 0 1'], ['vsubassign 0 0 3'], ['vsubassign 3 0 0'], ['vsubassign 1 0 0'], ['vsub 5 0 0', 'vsubassign 5 0 0'], ['vsubassign 0 0 2', 'vsubassign 0 0 1']]
+               ['vsubassign 0 0 1'], ['vsubassign 0 0 3'], ['vsubassign 3 0 0'], ['vsubassign 1 0 0'], ['vsub 5 0 0', 'vsubassign 5 0 0'], ['vsubassign 0 0 2', 'vsubassign 0 0 1'],
+               # operator=(const String&) with a text DIFFERENT from the old one, on every handle that may share its block: the copy, the copy of the copy,
+               # the slot the child was appended from, the content item itself through its element (source, enclosing element, element copy), the item copied out
+               ['vsettext 1 7a'], ['vsettext 2 7a'], ['vsettext 5 7a'], ['vsubsettext 0 0 7a'], ['vsubsettext 1 0 7a'], ['vsubsettext 4 0 7a'], ['vsubsettext 3 0 7a'],
+               ['vsub 2 4 0', 'vsettext 2 7a'], ['vsub 2 0 0', 'vsubsettext 2 0 7a'], ['vsettext 0 7a', 'vsettext 1 79']]
         for a in mk:
             for b in share:
                 for c in act:
@@ -765,9 +793,10 @@ class C16(Check):
                 cases.append(chain + ['vdump'] + hoist + ['vdump', 'vname 0 7a', 'vdump', 'vdel 0', 'vdump'])
         out.append(Stream('handles_directed', cases, exhaustive=True,
                           note='every combination of {element, text, null, element with element child, element with text child} x '
-                               '{unshared, copied once/twice, nested in another element, element copy, content item copied out} x 29 writes '
+                               '{unshared, copied once/twice, nested in another element, element copy, content item copied out} x 39 writes '
                                '(incl. assignment of a Variant from its own content item, of a content item copied out from its ancestor, of a content item '
-                               'in place from another Variant - a copy, an ancestor, a descendant); '
+                               'in place from another Variant - a copy, an ancestor, a descendant; a String with another text assigned to the copy, to the '
+                               'slot a child was appended from, to a content item through the source / the enclosing element / the element copy, to an item copied out); '
                                'chains a(b(c(t))) hoisted once, twice, three times, inner blocks held by the chain alone or by another slot'))
 
         # 9b. a reference obtained from toElement() and kept by the caller (audit finding 3)
@@ -787,7 +816,7 @@ class C16(Check):
         for _ in range(2500 if th else 450):
             cases.append(held_history(rng, rng.choice([4, 8, 12, 18])))
         out.append(Stream('held_reference', cases, note='`Element& e = v.toElement();` kept across other operations, then `e.type = ...`: obtained after / before the value is shared '
-                                                        '(5 block kinds x 6 sharing shapes x 15 intermediate operations), random histories; where the slot was copied after the reference '
+                                                        '(5 block kinds x 6 sharing shapes x 39 intermediate operations), random histories; where the slot was copied after the reference '
                                                         'was taken the spec is silent and only model = implementation is compared'))
 
         # 10. predefined entities and decimal references (spec = XML 1.0 4.6 / ASCII code points), unknown names
@@ -1022,7 +1051,7 @@ C16.level_text = (
     'tree with well-formed names, NUL-free attribute values, distinct attribute names (HashMap keys) and non-blank non-adjacent text; (4) for EVERY '
     'history of handle operations each reference count equals the number of Variant objects pointing to the block and the copy-on-write heap refines a '
     'value store, so an operation changes its target slot only - also an assignment whose right-hand side is a content item of the assigned '
-    'Variant itself (node = node.toElement().content[k]): the slot then holds the item\'s value and the counts stay exact; with a reference obtained from toElement() and kept by the caller (ops vhold / '
+    'Variant itself (node = node.toElement().content[k]): the slot then holds the item\'s value and the counts stay exact; a String assigned to a content item through its element changes that slot only - no copy of the element or of the old text item; with a reference obtained from toElement() and kept by the caller (ops vhold / '
     'vwriteheld) the same holds for every history in which no such reference is used after a later copy of the Variant (at the write no other '
     'Variant shares the block), the counts stay exact in every history, and the statement is refuted with a witness for a reference kept across a copy; '
     '(5) the file based entry points Xml::load / Xml::Parser::load / Xml::save are parse after reading and writing after toString with the file '
@@ -1079,7 +1108,15 @@ C16.level_note = (
     'copies only: its failing inputs say so in their first words. pinto also prints the Element the target was copied from (it must still hold the tree). '
     'Handles: vsubassign i k j is <k-th content item of slot[i]->toElement()> = *slot[j] for j != i (op VSubAssign of spec, model and theorems: a content item assigned in '
     'place from a copy, an ancestor or a descendant of its element); vassignsub i j k is *slot[i] = <k-th content item of slot j> through operator= with a reference into slot j\'s element (the value step of VSub; '
-    'j = i: the right-hand side is released by the assignment), vassignsubm i k the same behind a mutable toElement() of slot i (driver: touch, then VSub i i k). '
+    'j = i: the right-hand side is released by the assignment), vassignsubm i k the same behind a mutable toElement() of slot i (driver: touch, then VSub i i k); '
+    'vsubsettext i k t is <k-th content item of slot[i]->toElement()> = String (operator=(const String&) on a content item reached through its element: '
+    '`Xml::Element c = e; c.content.front() = "new";`), run by the driver as VText tmp t; VSubAssign i k tmp; VDel tmp with a hidden seventh slot (the code writes in place '
+    'when the item is a text block with count 1 and allocates otherwise: same values, same counts; theorem xml_text_assigned_to_content_item). '
+    'Copy, then assign a DIFFERENT text: corpus/C16/copy-then-assign-text.ops holds one deterministic case per way a text block gets shared (Variant copy, copy assignment, '
+    'three sharers, child appended from a slot, item copied out, Element copy, Variant copy of an element, item assigned in place from a text Variant, nested a(b(t)) both ways). '
+    'A case that matches an open entry of known_findings.json gets a reason prefix of its own in judge(): vf makes one report per reason shape from the shortest case of the group, '
+    'and the 6-op witness of the open finding fails in a vdump line like every other handle defect - it was the representative of that group and, being known, '
+    'swallowed the failing inputs of every other handle defect (round 6). '
     'NOT driven: assigning to a content item of an element the Variant that owns that element (Element& e = v.toElement(); e.content.front() = v;). The lazy copy '
     'stores a reference to the block inside the block itself: a reference cycle, Xml::toString(v.toElement()) then overflows the stack (observed on the unchanged '
     'tree) - the same design limitation as the open finding of C07 (a Variant stored into its own payload); value semantics would put a copy of the OLD value of v '
@@ -1104,11 +1141,11 @@ C16.rule = (
     '32/64-bit boundaries, quotes/ampersands/line breaks in values, texts whose first byte starts another token (look-ahead fails), nesting '
     'depth 1000, NUL inside the buffer, documents well formed by construction with and without inserted comments / processing instructions, every name byte '
     '(each of the 128 bytes >= 0x80, UTF-8 sequences) in element and attribute names, every byte string of length <= 3 (4 thorough) over a 15-letter alphabet bare and in 5 contexts, and for '
-    'handles every combination of block kind x sharing shape x write (incl. assignment from the own content item, chains hoisted one to three levels), the same with a reference taken before / after the sharing and kept across 15 kinds of '
+    'handles every combination of block kind x sharing shape x write (incl. assignment from the own content item, chains hoisted one to three levels, a String with another text assigned to every handle that may share the block - copy, slot a child came from, content item through source / enclosing element / element copy, item copied out), the same with a reference taken before / after the sharing and kept across 39 kinds of '
     'intermediate operations; file cases = load of a table of failing / succeeding texts, generated and mutated documents (also with a 0 byte, also 64 KiB) written to '
     'a scratch file, a missing file, save to a writable / unwritable path, save then load of generated trees. Non-trivial: a parse that succeeds, or fails beyond line 1 column 1 on a '
     'document of >= 8 bytes; a round trip of a tree with >= 3 nodes/attributes; a well-formed-document case whose op line has >= 24 characters; a handle history that both shares (copy/assign/child/sub) and '
-    'writes (name/attr/submut/settext/child/write through a kept reference); an entity case that parses; a file case whose text op line has >= 24 characters or whose tree '
+    'writes (name/attr/submut/settext/subsettext/child/write through a kept reference); an entity case that parses; a file case whose text op line has >= 24 characters or whose tree '
     'has >= 2 nodes/attributes. distinct = distinct op text.')
 C16.assumptions = [
     'scanf("#%u") behaves as the reference decimal scanner scan_u of XmlModel.v (validated by correspondence on 300 spellings x boundary values)',
